@@ -348,6 +348,25 @@ Theorem remove_trait_restores_class_rule_for_derived_names :
 Proof. exact remove_mapped_restores_class_rule. Qed.
 Print Assumptions remove_trait_restores_class_rule_for_derived_names.
 
+(* List traits (has_items): the event trait of name_items is installed by add_trait and removed,
+   with the trait and its value, by remove_trait *)
+Theorem add_list_trait_installs_items_event :
+  forall pt s n,
+    let s' := fst (step pt s (OAdd n PList)) in
+    assoc n (s_itd s') = Some PList /\
+    assoc (n ++ items_suffix) (s_itd s') = Some (PEvent (Some VNoneOnly)) /\ s_od s' = s_od s.
+Proof. exact add_list_installs. Qed.
+Print Assumptions add_list_trait_installs_items_event.
+
+Theorem remove_list_trait_clears_items_event :
+  forall pt s n,
+    assoc n (s_itd s) = Some PList ->
+    let s' := fst (step pt s (ORem n)) in
+    o_out (snd (step pt s (ORem n))) = Val 1 /\
+    assoc n (s_itd s') = None /\ assoc (n ++ items_suffix) (s_itd s') = None /\ assoc n (s_od s') = None.
+Proof. exact remove_list_clears. Qed.
+Print Assumptions remove_list_trait_clears_items_event.
+
 (* on plain traits Model.step is the plain look-up + handlers the invariant proofs reason about *)
 Theorem model_step_on_plain_traits :
   forall ct pt s ls o, Inv ct pt s ls -> clean_step s o = true -> step pt s o = step_p pt s o.
